@@ -13,6 +13,7 @@ Inductive l2op :=
 | OIncr (k : string) (d : Z)
 | OGet (k : string)
 | OMeta (k : string)
+| OTree (k : string)
 | OFlush
 | OHintDump
 | ORestart (rm : rmset)
@@ -26,6 +27,7 @@ Inductive l2out :=
 | XMiss
 | XHit (v : string) (flag : N)
 | XMeta (ver : Z) (vh flag len ts chunk off : N)
+| XTree (ver : Z) (vh chunk off : N)
 | XOk | XRefuse
 | XRange (b e : N)
 | XGc (before released size_released not_in_tree : N).
@@ -95,6 +97,7 @@ Definition out_eqb (m : l2out) (x : l2out) : bool :=
   | XHit v f, XHit v' f' => list_eqb N.eqb (unhex v) (unhex v') && (f =? f')
   | XMeta ver vh fl ln ts ck off, XMeta ver' vh' fl' ln' ts' ck' off' =>
       (ver =? ver')%Z && (vh =? vh') && (fl =? fl') && (ln =? ln') && ((ts =? ts_now) || (ts =? ts')) && (ck =? ck') && (off =? off')
+  | XTree ver vh ck off, XTree ver' vh' ck' off' => (ver =? ver')%Z && (vh =? vh') && (ck =? ck') && (off =? off')
   | XRange a b, XRange a' b' => (a =? a') && (b =? b')
   | XGc a b c d, XGc a' b' c' d' => (a =? a') && (b =? b') && (c =? c') && (d =? d')
   | _, _ => false
@@ -140,6 +143,11 @@ Definition l2_step (lc : l2cfg) (b : bucket) (o : l2op) : option bucket * mout :
                       | GHit v fl ver ts p =>
                           XMeta ver (if (0 <? ver)%Z then vhash v else 0) fl (lenN v) ts (N.of_nat (p_chunk p)) (p_off p)
                       end))
+  | OTree k =>
+      (Some b, MOut (match bkt_get_mem b (hf (unhex k)) (unhex k) with
+                     | Some (ver, vh, p) => XTree ver vh (N.of_nat (p_chunk p)) (p_off p)
+                     | None => XMiss
+                     end))
   | OFlush => (Some (flush_head b), MOut XOk)
   | OHintDump => (Some (fold_left (fun bb i => trydump bb i false) (seq 0 NCH) b), MOut XOk)
   | ORestart rm =>
